@@ -298,6 +298,12 @@ func (m *Mux) encError(w http.ResponseWriter, r *http.Request, err error) {
 		w.WriteHeader(HTTPStatusCode(s.Code()))
 
 		codeStr := strings.ToLower(code.Code_name[int32(s.Code())])
+		switch s.Code() {
+		case codes.Canceled:
+			codeStr = "canceled" // twirp spelling
+		case codes.DataLoss:
+			codeStr = "dataloss" // twirp spelling
+		}
 
 		terr := &twirpError{
 			Code:    codeStr,
